@@ -15,9 +15,14 @@
 (*     pretty_dict, pretty_call_alt / build_fncall, python_to_sdocs.          *)
 (*                                                                         *)
 (* Domain of the model (anything else yields an "unmodelled" marker and the   *)
-(* case is skipped): no comments, no truncation (len <= max_seq_len), str and  *)
-(* bytes over printable ASCII and newline (split strings included: the       *)
-(* evaluator composes StrSplitFn!Lines with the four multiline strategies).  *)
+(* case is skipped): str and bytes over printable ASCII and newline (split    *)
+(* strings included: the evaluator composes StrSplitFn!Lines with the four    *)
+(* multiline strategies); comment() / trailing_comment() wrappers with texts   *)
+(* over printable ASCII, tab and newline (commentdoc, the comment placement of *)
+(* sequence_of_docs / pretty_dict / build_fncall / python_to_sdocs, the lazy    *)
+(* plain re-rendering of commented dict values); truncation by max_seq_len     *)
+(* with its '...and N more elements' comment; user types printed through       *)
+(* pretty_call (<<"call", name, args, kwargs>>).                               *)
 (*                                                                         *)
 (* Value terms are the ones of PyTerm with the repr text of number leaves     *)
 (* attached:  <<"int", digits, codes>>  <<"float", repr, codes>>              *)
@@ -70,46 +75,166 @@ DepthLeZero(ctx) == ctx.depth # -1 /\ ctx.depth <= 0
 \* bracket(ctx, left, child, right)
 Bracket(ctx, left, child, right) == Cat(<<left, Nst(ctx.indent, Cat(<<SOFTLINE, child>>)), SOFTLINE, right>>)
 
-\* sequence_of_docs without comments
-RECURSIVE SeqParts(_, _)
-SeqParts(docs, i) ==
-  IF i > Len(docs) THEN <<>>
-  ELSE IF i = Len(docs) THEN <<docs[i]>>
-  ELSE <<docs[i], Cat(<<COMMA, LINE>>)>> \o SeqParts(docs, i + 1)
+-----------------------------------------------------------------------------
+\* ---- comments: comment(value, text) = <<"cm", text, v>>, trailing_comment(value, text) = <<"tcm", text, v>>
+COMMENT_SINGLE == 20
+NAME_FUNCTION == 3
+NAME_VARIABLE == 4
+OPERATOR == 12
+ASSIGN_OP == Ann(OPERATOR, Txt(<<61>>))
+FC(broken, flat) == <<"fc", broken, flat, 0>>
+CAnn(text, d) == <<"cann", text, d>>
+IsCommented(d) == d[1] = "cann"
+TwoSpaces == Txt(<<32, 32>>)
 
-SequenceOfDocs(ctx, left, docs, right, dangle) ==
-  LET minLen == 2 + 2 * (Len(docs) - 1) + Len(docs)
-      parts == SeqParts(docs, 1) \o (IF dangle THEN <<COMMA>> ELSE <<>>)
-      body == Bracket(ctx, left, Cat(parts), right)
-  IN IF minLen > 150 THEN AB(body) ELSE Grp(body)
+\* comment texts inside the model: printable ASCII, space, tab, newline (str.splitlines / \s split on more)
+ModelledText(codes) == \A i \in 1..Len(codes) : codes[i] \in 32..126 \cup {9, 10}
+IsCWs(c) == c \in {32, 9}
 
-\* build_fncall(ctx, fndoc, argdocs) without keywords / comments
-BuildFncall(ctx, fndoc, argdocs, hug) ==
-  IF Len(argdocs) = 0 THEN Cat(<<fndoc, LPAREN, RPAREN>>)
-  ELSE IF hug /\ Len(argdocs) = 1 THEN Grp(Cat(<<fndoc, LPAREN, argdocs[1], RPAREN>>))
-  ELSE LET parts == [i \in 1..Len(argdocs) |->
-                       LET part == Cat(<<argdocs[i], IF i = Len(argdocs) THEN NILT ELSE COMMA>>)
-                       IN IF i = Len(argdocs) THEN part ELSE Cat(<<part, LINE>>)] \o <<>>
-       IN Grp(Cat(<<fndoc, LPAREN, Nst(ctx.indent, Cat(<<SOFTLINE, Cat(parts)>>)), SOFTLINE, RPAREN>>))
+\* text.splitlines() for texts whose only line separator is \n
+RECURSIVE SplitNl(_, _, _)
+SplitNl(codes, i, cur) ==
+  IF i > Len(codes) THEN (IF Len(cur) = 0 THEN <<>> ELSE <<cur>>)
+  ELSE IF codes[i] = 10 THEN <<cur>> \o SplitNl(codes, i + 1, <<>>)
+  ELSE SplitNl(codes, i + 1, Append(cur, codes[i]))
+
+\* list(filter(None, WHITESPACE_PATTERN_TEXT.split(line))): the maximal runs of whitespace / non-whitespace
+RECURSIVE Runs(_, _, _)
+Runs(line, i, cur) ==
+  IF i > Len(line) THEN (IF Len(cur) = 0 THEN <<>> ELSE <<cur>>)
+  ELSE IF Len(cur) = 0 \/ IsCWs(cur[1]) = IsCWs(line[i]) THEN Runs(line, i + 1, Append(cur, line[i]))
+  ELSE <<cur>> \o Runs(line, i + 1, <<line[i]>>)
+
+HashSpace == Txt(<<35, 32>>)
+\* one line of commentdoc(text)
+CommentLine(line) ==
+  LET rs == Runs(line, 1, <<>>)
+  IN IF Len(rs) = 0 THEN Txt(<<35>>)
+     ELSE LET sw == IsCWs(rs[1][1])
+              prefix == IF sw THEN Txt(rs[1]) ELSE NILT
+              t1 == IF sw THEN Tail(rs) ELSE rs
+              t2 == IF Len(t1) % 2 = 0 THEN SubSeq(t1, 1, Len(t1) - 1) ELSE t1
+              items == [i \in 1..Len(t2) |->
+                          IF i % 2 = 0 THEN FC(AB(Cat(<<HLT, HashSpace>>)), Txt(t2[i])) ELSE Txt(t2[i])] \o <<>>
+          IN Cat(<<HashSpace, prefix, <<"fill", items>>>>)
+
+\* commentdoc(text), text non-empty
+CommentDoc(text) ==
+  LET ls == SplitNl(text, 1, <<>>)
+      cls == [i \in 1..Len(ls) |-> CommentLine(ls[i])] \o <<>>
+      body == Cat(Intersperse(HLT, cls, 1))
+  IN IF ~ModelledText(text) THEN <<"unmodelled">>
+     ELSE Ann(COMMENT_SINGLE, IF Len(ls) > 1 THEN AB(body) ELSE body)
+
+\* unwrap_comments: <<value, comment, trailing_comment>>; <<-1>> = None. The loop assigns outermost first, so the
+\* INNERMOST wrapper of each kind wins.
+NONE == <<-1>>
+RECURSIVE Unwrap(_)
+Unwrap(v) ==
+  IF v[1] = "cm" THEN LET r == Unwrap(v[3]) IN <<r[1], IF r[2] = NONE THEN v[2] ELSE r[2], r[3]>>
+  ELSE IF v[1] = "tcm" THEN LET r == Unwrap(v[3]) IN <<r[1], r[2], IF r[3] = NONE THEN v[2] ELSE r[3]>>
+  ELSE <<v, NONE, NONE>>
+\* `if comment:` / `if trailing_comment:` - None and '' are both falsy
+Truthy(c) == c # NONE /\ Len(c) > 0
+
+RECURSIVE FlatSeq(_, _)
+FlatSeq(ss, i) == IF i > Len(ss) THEN <<>> ELSE ss[i] \o FlatSeq(ss, i + 1)
+
+\* sequence_of_docs(ctx, left, docs, right, dangle, force_break)
+SequenceOfDocs(ctx, left, docs, right, dangle, force) ==
+  LET n == Len(docs)
+      minLen == 2 + 2 * (n - 1) + n
+      willBreak == force \/ minLen > 150
+      hasComment == \E i \in 1..n : IsCommented(docs[i])
+      part(i) ==
+        LET last == i = n
+            d == docs[i]
+        IN IF IsCommented(d)
+           THEN LET needsComma == ~last \/ dangle
+                    comma == IF needsComma THEN COMMA ELSE NILT
+                    flatV == Cat(<<d, comma, TwoSpaces, CommentDoc(d[2]), IF last THEN NILT ELSE HLT>>)
+                    brokV == Cat(<<CommentDoc(d[2]), HLT, d, comma, IF last THEN NILT ELSE HLT>>)
+                IN <<Grp(FC(brokV, flatV))>>
+           ELSE IF last THEN <<d>> ELSE <<d, Cat(<<COMMA, LINE>>)>>
+      parts == [i \in 1..n |-> part(i)] \o <<>>
+      flatParts == FlatSeq(parts, 1)
+      parts2 == IF dangle /\ ~(n > 0 /\ IsCommented(docs[n])) THEN Append(flatParts, COMMA) ELSE flatParts
+      body == Bracket(ctx, left, Cat(parts2), right)
+  IN IF willBreak \/ hasComment THEN AB(body) ELSE Grp(body)
+
+\* build_fncall(ctx, fndoc, argdocs, kwargdocs, hug_sole_arg, trailing_comment); kwargdocs = << <<name, doc>>, ... >>
+BuildFncall(ctx, fndoc, argdocs, kwargdocs, hug, tc) ==
+  LET kwd == [i \in 1..Len(kwargdocs) |->
+                LET nm == Ann(NAME_VARIABLE, Txt(kwargdocs[i][1]))
+                    d == kwargdocs[i][2]
+                IN IF IsCommented(d) THEN CAnn(d[2], Cat(<<nm, ASSIGN_OP, d[3]>>))
+                   ELSE Cat(<<nm, ASSIGN_OP, d>>)] \o <<>>
+      hasTc == Truthy(tc)
+  IN IF Len(argdocs) = 0 /\ Len(kwd) = 0 /\ ~hasTc THEN Cat(<<fndoc, LPAREN, RPAREN>>)
+     ELSE IF hug /\ Len(kwd) = 0 /\ Len(argdocs) = 1 /\ ~IsCommented(argdocs[1])
+          THEN Grp(Cat(<<fndoc, LPAREN, argdocs[1], RPAREN>>))
+     ELSE LET all == (argdocs \o kwd) \o (IF hasTc THEN <<CommentDoc(tc)>> ELSE <<>>)
+              n == Len(all)
+              \* has_comment as it stands after the loop has looked at element i
+              hc(i) == hasTc \/ \E j \in 1..i : IsCommented(all[j])
+              parts == [i \in 1..n |->
+                          LET last == i = n
+                              cm == IsCommented(all[i])
+                              doc == IF cm THEN all[i][3] ELSE all[i]
+                              p0 == Cat(<<doc, IF last THEN NILT ELSE COMMA>>)
+                              p1 == IF cm THEN Grp(FC(Cat(<<CommentDoc(all[i][2]), HLT, p0>>),
+                                                       Cat(<<p0, TwoSpaces, CommentDoc(all[i][2])>>)))
+                                    ELSE p0
+                          IN IF last THEN p1 ELSE Cat(<<p1, IF hc(i) THEN HLT ELSE LINE>>)] \o <<>>
+              body == Cat(<<fndoc, LPAREN, Nst(ctx.indent, Cat(<<SOFTLINE, Cat(parts)>>)), SOFTLINE, RPAREN>>)
+          IN IF hc(n) THEN AB(body) ELSE Grp(body)
 
 \* pretty_call_alt(ctx, constructor, args=(...,)): the depth placeholder  name(...)
-Placeholder(kind) == Cat(<<Builtin(NameOf(kind)), LPAREN, ELLIPSIS, RPAREN>>)
+PlaceholderFn(fndoc) == Cat(<<fndoc, LPAREN, ELLIPSIS, RPAREN>>)
+Placeholder(kind) == PlaceholderFn(Builtin(NameOf(kind)))
 
 IsSimpleStr(codes) == \A i \in 1..Len(codes) : codes[i] \in 32..126 /\ codes[i] \notin {39, 34, 92}
 
-RECURSIVE PV(_, _)
-\* (\o <<>> forces TLC's lazy function value into a tuple: otherwise every docs[i] re-runs PV)
-PVSeq(vs, ctx) == [i \in 1..Len(vs) |-> PV(vs[i], ctx)] \o <<>>
+RECURSIVE ToDigits(_)
+ToDigits(n) == IF n < 10 THEN <<48 + n>> ELSE Append(ToDigits(n \div 10), 48 + (n % 10))
+\* '...and {} more elements'
+TruncText(k) == (<<46, 46, 46, 97, 110, 100, 32>> \o ToDigits(k)) \o
+                <<32, 109, 111, 114, 101, 32, 101, 108, 101, 109, 101, 110, 116, 115>>
+WithTrunc(n, msl, tc) ==
+  IF n > msl THEN TruncText(n - msl) \o (IF Truthy(tc) THEN <<46, 32>> \o tc ELSE <<>>)
+  ELSE tc
+TakeN(k, s) == IF Len(s) <= k THEN s ELSE SubSeq(s, 1, k)
 
-PV(v, ctx) ==
+RECURSIVE PVC(_, _), PVT(_, _, _), CallAlt(_, _, _, _)
+\* (\o <<>> forces TLC's lazy function value into a tuple: otherwise every docs[i] re-runs PV)
+PVSeq(vs, ctx) == [i \in 1..Len(vs) |-> PVC(vs[i], ctx)] \o <<>>
+
+\* pretty_python_value: unwrap comments, dispatch (with the trailing comment when the printer takes one),
+\* re-attach the value comment
+PVC(v, ctx) ==
+  LET u == Unwrap(v)
+      doc == PVT(u[1], ctx, IF Truthy(u[3]) THEN u[3] ELSE NONE)
+  IN IF doc[1] = "unmodelled" THEN doc
+     ELSE IF Truthy(u[2]) THEN (IF ModelledText(u[2]) THEN CAnn(u[2], doc) ELSE <<"unmodelled">>) ELSE doc
+
+\* pretty_call_alt(ctx, fn, args, kwargs) for a function document fndoc; kwargs = << <<name, value>>, ... >>
+CallAlt(ctx, fndoc, args, kwargs) ==
+  IF DepthLeZero(ctx) THEN PlaceholderFn(fndoc)
+  ELSE IF Len(kwargs) = 0 /\ Len(args) = 1 /\ Unwrap(args[1])[1][1] \in {"list", "dict", "tuple"}
+       THEN BuildFncall(ctx, fndoc, <<PVC(args[1], ctx)>>, <<>>, TRUE, NONE)
+  ELSE LET nctx == Strat(Nested(ctx), "hang")
+       IN BuildFncall(ctx, fndoc, PVSeq(args, nctx),
+                      [i \in 1..Len(kwargs) |-> <<kwargs[i][1], PVC(kwargs[i][2], nctx)>>] \o <<>>, FALSE, NONE)
+
+\* the printers; tc = trailing comment (NONE or non-empty text); printers that do not take one drop it (with a warning)
+PVT(v, ctx, tc) ==
   CASE v[1] = "int" ->
          IF DepthZero(ctx) THEN Placeholder("int") ELSE Ann(NUMBER_INT, Txt(v[3]))
     [] v[1] = "float" ->
          IF DepthZero(ctx) THEN Placeholder("float")
          ELSE IF v[2] \in {"inf", "-inf", "nan"}
               \* pretty_call_alt(ctx, float, args=('inf',)): a str argument, printed with the nested context
-              THEN (IF DepthLeZero(ctx) THEN Placeholder("float")
-                    ELSE BuildFncall(ctx, Builtin(NameOf("float")), <<PV(<<"str", v[3]>>, Strat(Nested(ctx), "hang"))>>, FALSE))
+              THEN CallAlt(ctx, Builtin(NameOf("float")), << <<"str", v[3]>> >>, <<>>)
               ELSE Ann(NUMBER_FLOAT, Txt(v[3]))
     [] v[1] = "bool" -> Ann(KEYWORD_CONSTANT, Txt(IF v[2] = 1 THEN <<84, 114, 117, 101>> ELSE <<70, 97, 108, 115, 101>>))
     [] v[1] = "none" -> Ann(KEYWORD_CONSTANT, Txt(<<78, 111, 110, 101>>))
@@ -120,34 +245,67 @@ PV(v, ctx) ==
     [] v[1] \in {"list", "tuple", "set"} ->
          LET left == CASE v[1] = "list" -> LBRACKET [] v[1] = "tuple" -> LPAREN [] OTHER -> LBRACE
              right == CASE v[1] = "list" -> RBRACKET [] v[1] = "tuple" -> RPAREN [] OTHER -> RBRACE
-         IN IF Len(v[2]) > ctx.msl THEN <<"unmodelled">>
-            ELSE IF Len(v[2]) = 0
-                 THEN (IF v[1] = "set"
-                       THEN (IF DepthLeZero(ctx) THEN Placeholder("set")
-                             ELSE Cat(<<Builtin(NameOf("set")), LPAREN, RPAREN>>))
-                       ELSE Cat(<<left, right>>))
+             n == Len(v[2])
+             tcm == WithTrunc(n, ctx.msl, tc)
+             hasTc == Truthy(tcm)
+         IN IF hasTc /\ ~ModelledText(tcm) THEN <<"unmodelled">>
+            ELSE IF n = 0 /\ v[1] # "set" /\ ~hasTc THEN Cat(<<left, right>>)
+            ELSE IF n = 0 /\ v[1] = "set"
+                 THEN (IF ~hasTc THEN CallAlt(ctx, Builtin(NameOf("set")), <<>>, <<>>)
+                       ELSE BuildFncall(ctx, Builtin(NameOf("set")), <<>>, <<>>, FALSE, tcm))
             ELSE IF DepthZero(ctx)
                  THEN (IF v[1] = "set" THEN Placeholder("set") ELSE Cat(<<left, ELLIPSIS, right>>))
-            ELSE SequenceOfDocs(ctx, left, PVSeq(v[2], Strat(Nested(ctx), IF Len(v[2]) = 1 THEN "plain" ELSE "hang")),
-                                right, v[1] = "tuple" /\ Len(v[2]) = 1)
+            ELSE LET els == IF n = 1 THEN <<PVC(v[2][1], Strat(Nested(ctx), "plain"))>>
+                            ELSE PVSeq(TakeN(ctx.msl, v[2]), Strat(Nested(ctx), "hang"))
+                     els2 == IF hasTc THEN Append(els, CommentDoc(tcm)) ELSE els
+                 IN SequenceOfDocs(ctx, left, els2, right, v[1] = "tuple" /\ n = 1 /\ ~hasTc, hasTc)
     [] v[1] = "frozenset" ->
-         IF DepthLeZero(ctx) THEN Placeholder("frozenset")
-         ELSE IF Len(v[2]) = 0 THEN Cat(<<Builtin(NameOf("frozenset")), LPAREN, RPAREN>>)
-         \* the sole list argument is hugged and printed with the SAME context
-         ELSE BuildFncall(ctx, Builtin(NameOf("frozenset")), <<PV(<<"list", v[2]>>, ctx)>>, TRUE)
+         \* pretty_frozenset takes no trailing_comment; list(value) is the sole (hugged) argument, same context
+         IF Len(v[2]) = 0 THEN CallAlt(ctx, Builtin(NameOf("frozenset")), <<>>, <<>>)
+         ELSE CallAlt(ctx, Builtin(NameOf("frozenset")), << <<"list", v[2]>> >>, <<>>)
     [] v[1] = "dict" ->
          IF DepthZero(ctx) THEN Cat(<<LBRACE, ELLIPSIS, RBRACE>>)
-         ELSE IF Len(v[2]) > ctx.msl THEN <<"unmodelled">>
-         ELSE LET n == Len(v[2])
-                  parts == [i \in 1..n |->
-                              LET k == v[2][i][1]
-                                  \* str/bytes keys are printed with the dict's own context
-                                  kdoc == IF k[1] \in {"str", "bytes"} THEN PV(k, Strat(ctx, "parens")) ELSE PV(k, Nested(ctx))
-                                  vdoc == PV(v[2][i][2], Strat(Nested(ctx), "indented"))
-                              IN Cat(<<kdoc, Cat(<<COLON, Txt(<<32>>)>>), vdoc,
-                                       IF i = n THEN NILT ELSE COMMA, IF i = n THEN NILT ELSE LINE>>)] \o <<>>
-                  doc == Bracket(ctx, LBRACE, Cat(parts), RBRACE)
-              IN IF n > 2 THEN AB(doc) ELSE Grp(doc)
+         ELSE LET all == v[2]
+                  tcm == WithTrunc(Len(all), ctx.msl, tc)
+                  hasTc == Truthy(tcm)
+                  prs == TakeN(ctx.msl, all)
+                  n == Len(prs)
+                  kd(i) == LET k == prs[i][1] IN
+                           \* str/bytes keys are printed with the dict's own context
+                           IF k[1] \in {"str", "bytes"} THEN PVT(k, Strat(ctx, "parens"), NONE) ELSE PVC(k, Nested(ctx))
+                  vd(i) == PVC(prs[i][2], Strat(Nested(ctx), "indented"))
+                  kds == [i \in 1..n |-> kd(i)] \o <<>>
+                  vds == [i \in 1..n |-> vd(i)] \o <<>>
+                  hasComment == hasTc \/ \E i \in 1..n : IsCommented(kds[i]) \/ IsCommented(vds[i])
+                  part(i) ==
+                    LET last == i = n
+                        kc == IsCommented(kds[i])
+                        vc == IsCommented(vds[i])
+                        kdoc == IF kc THEN kds[i][3] ELSE kds[i]
+                        vdoc == IF vc THEN vds[i][3] ELSE vds[i]
+                        comma == IF last THEN NILT ELSE COMMA
+                    IN IF ~kc /\ ~vc
+                       THEN Cat(<<kdoc, Cat(<<COLON, Txt(<<32>>)>>), vdoc, comma, IF last THEN NILT ELSE LINE>>)
+                       ELSE LET kcommented == IF kc THEN Cat(<<CommentDoc(kds[i][2]), HLT, kdoc>>) ELSE kdoc
+                                vcommented ==
+                                  IF vc
+                                  THEN Grp(FC(
+                                         \* broken: the comment on its own line above the value, which is rendered
+                                         \* again (lazily) with the plain multi-line strategy
+                                         Cat(<<Nst(ctx.indent,
+                                                   Cat(<<HLT, CommentDoc(vds[i][2]), HLT,
+                                                         <<"lazy", PVC(prs[i][2], Strat(Nested(ctx), "plain"))>>, comma>>)),
+                                               IF last THEN NILT ELSE HLT>>),
+                                         Cat(<<vdoc, comma, TwoSpaces, CommentDoc(vds[i][2]), IF last THEN NILT ELSE HLT>>)))
+                                  ELSE Cat(<<vdoc, comma, IF last THEN NILT ELSE LINE>>)
+                            IN Cat(<<kcommented, Cat(<<COLON, Txt(<<32>>)>>), vcommented>>)
+                  parts == [i \in 1..n |-> part(i)] \o <<>>
+                  parts2 == IF hasTc THEN Append(parts, Cat(<<HLT, CommentDoc(tcm)>>)) ELSE parts
+                  doc == Bracket(ctx, LBRACE, Cat(parts2), RBRACE)
+              IN IF hasTc /\ ~ModelledText(tcm) THEN <<"unmodelled">>
+                 ELSE IF n > 2 \/ hasComment THEN AB(doc) ELSE Grp(doc)
+    \* a user type whose printer is  pretty_call(ctx, <name>, *args, **kwargs):  <<"call", name, args, kwargs>>
+    [] v[1] = "call" -> CallAlt(ctx, Ann(NAME_FUNCTION, Txt(v[2])), v[3], v[4])
     [] OTHER -> <<"unmodelled">>
 
 \* a str dict key at depth 0 of the dict's context would print str(...): pretty_str checks
@@ -174,7 +332,11 @@ Unmodelled(out) == \E p \in 1..Len(out) : out[p].k = "unmodelled"
 
 \* pformat(value, indent, width, depth, ribbon_width, max_seq_len): <<modelled?, text>>
 Pformat(v, indent, width, depth, ribbon, msl) ==
-  LET doc == PV(v, [indent |-> indent, depth |-> depth, msl |-> msl, strat |-> "plain"])
+  LET doc0 == PVC(v, [indent |-> indent, depth |-> depth, msl |-> msl, strat |-> "plain"])
+      \* python_to_sdocs: a comment on the top-level value
+      doc == IF IsCommented(doc0)
+             THEN Grp(FC(Cat(<<CommentDoc(doc0[2]), HLT, doc0>>), Cat(<<doc0, TwoSpaces, CommentDoc(doc0[2])>>)))
+             ELSE doc0
       R == IF ribbon < width THEN ribbon ELSE width
       out == RunI(TRUE, width, R, InitI(doc))
   IN IF Unmodelled(out) THEN <<FALSE, <<>>>> ELSE <<TRUE, RenderOut(out, 1, LastTextIx(out, 1, 0), <<>>)>>
